@@ -286,13 +286,14 @@ def prim_default(ex, st, callee, args, m):
     return BitVecVal(0, INT_W.get(t, 64))
 
 
-@model(r'^<(usize|u64|u32|u16|u8|i64|i32|i16|i8|isize) as (?:std::cmp::|core::cmp::)?Ord>::(min|max)$')
+@model(r'^<&*(usize|u64|u32|u16|u8|i64|i32|i16|i8|isize) as (?:std::cmp::|core::cmp::)?Ord>::(min|max)$')
 def prim_ord_minmax(ex, st, callee, args, m):
     """Ord::min / Ord::max on integers"""
     a, b = D(ex, args[0]), D(ex, args[1])
     signed = m.group(1).startswith('i')
     lt = (a < b) if signed else z3.ULT(a, b)
-    return If(lt, a, b) if m.group(2) == 'min' else If(lt, b, a)
+    r = If(lt, a, b) if m.group(2) == 'min' else If(lt, b, a)
+    return box(r) if callee.startswith('<&') else r       # Ord on references returns a reference
 
 
 @model(r'^(?:std::option::|core::option::)?Option::<&(?:mut )?.*>::(copied|cloned)$')
